@@ -209,4 +209,13 @@ theorem ctr_ks_injective (C : Cipher) (hC : C.Valid) (f : Flavor) (hw : f.w = 8 
   have := congrArg C.dec h
   rw [hC.dec_enc _ (hl _), hC.dec_enc _ (hl _)] at this
   exact ctrBlock_injective f hw iv i j hi hj this
+/-- **observation O4** (dependency code): the check of the consuming core-level one-shot `try_apply_keystream_partial` is *not*
+    "the request fits" — the block count is taken with `%`. On the tiny core with two blocks remaining: a three-block request
+    (a multiple of the block size, so the count is 0) proceeds, and a request of 7 bytes = 2 blocks, which fits, is refused.
+    The byte-level wrapper, which owns the exhaustion contract of this property, does not use this method; the model mirrors
+    the dependency as it is (`Glue.partialCheck`) and the harness confirms the mirror at the keystream limit. -/
+theorem partialCheck_is_not_fits :
+    partialCheck tinyCore 253 12 = true ∧ partialCheck tinyCore 253 7 = false := by
+  decide
+
 end Thm.C11
